@@ -68,8 +68,46 @@ let show_view (slot : mupdate option) : string =
       String.concat "." (List.map (fun (a, up) -> hex_of_n a ^ (if up then "+" else "-")) hints) in
   Printf.sprintf "%s:%s:%s:%d:%s:%s:%s" (hex_of_n kind) (hex_of_n mv) (hex_of_n pv) (if rc then 1 else 0) (l routes) (hex_of_n resp) hs
 
+(* ---- F: the fetch plan bookkeeping and the resolution of PendingFetches ---- *)
+let show_plan (p : plan) : string =
+  match p with
+  | PFull -> "F:-:0"
+  | PPartial (rs, t) ->
+    Printf.sprintf "P:%s:%d" (if rs = [] then "-" else String.concat "." (List.map hex_of_n rs)) (if t then 1 else 0)
+
+let fetch_verdict (arg : string) (impl : string list) : string =
+  if String.length arg > 0 && arg.[0] = 'p' then begin
+    let script = String.sub arg 1 (String.length arg - 1) in
+    let p = ref plan_empty and views = ref [] in
+    List.iteri (fun i c ->
+        p := (match c with
+            | 'f' -> note_full !p
+            | 't' -> note_topology !p
+            | 'c' -> note_routes (n_of_int (i + 1)) !p
+            | _ -> failwith "bad plan op");
+        views := show_plan !p :: !views) (chars_of_string script);
+    let model = String.concat "," (List.rev !views) in
+    match impl with
+    | [v] when v = model -> "ok"
+    | _ -> "diff model=" ^ model
+  end else begin
+    (* r<full><routes><topology>: fetch ids 1, 2, 3; digit 2 = complete *)
+    let d k = arg.[k + 1] in
+    let fl = if d 0 <> '0' then IFull (n_of_int 1)
+      else IPartial ((if d 1 <> '0' then Some (n_of_int 2) else None), (if d 2 <> '0' then Some (n_of_int 3) else None)) in
+    let ready f = let k = int_of_n f in d (k - 1) = '2' in
+    let model = match resolve ready fl with
+      | None -> let (a, b, c) = (match fl with IFull _ -> (1, 0, 0) | IPartial (r, t) -> (0, (if r <> None then 1 else 0), (if t <> None then 1 else 0))) in
+        Printf.sprintf "0 %d%d%d" a b c
+      | Some (o, fl') ->
+        let (a, b, c) = (match fl' with IFull _ -> (1, 0, 0) | IPartial (r, t) -> (0, (if r <> None then 1 else 0), (if t <> None then 1 else 0))) in
+        Printf.sprintf "%d %d%d%d" (match o with OFull _ -> 1 | ORoutes _ -> 2 | OTopology _ -> 3) a b c in
+    if String.concat " " impl = model then "ok" else "diff model=" ^ model
+  end
+
 let verdict case impl =
   match case, impl with
+  | ["F"; arg], _ -> fetch_verdict arg impl
   | ("S" | "Z") :: _, "skip-env" :: _ -> "ok skip-env"
   | "U" :: _, "panic" :: _ -> "diff the hook / the merge functions panicked"
   | ["U"; script], [views; statuses] ->
